@@ -45,7 +45,10 @@ RULE = ("message sequences over 2 clients x 3 players (default + 2; plus unset/e
         "the handlers read: unset vs default-valued vs other values, in one- and two-message combinations on the "
         "reported player); (c) sampled longer sequences from ctx.rng with independent presence per field and "
         "noise in fields the model ignores; (d) the position cases and sampled histories under four process "
-        "timezones x five offsets between elapsedTimeTimestamp and the frozen instant; plus the full grid of "
+        "timezones x five offsets between elapsedTimeTimestamp and the frozen instant; (e) populations of up to "
+        "14 clients / 14 players alive at once (deterministic ladders + sampled); (f) bursts: groups of 2-4 messages "
+        "dispatched back to back while the listener stays suspended in state_updated() (all pairs of the reduced "
+        "alphabet after each warm-up history, sampled histories cut into random groups); plus the full grid of "
         "Playing(position, total_time). non-trivial = "
         "the sequence changes the reported view at least twice or removes a client/player that was being "
         "reported; distinct = the sequence itself")
@@ -1420,9 +1423,9 @@ def burst_cases(ctx, real, rng):
     for pi, pre in enumerate(prefixes(real)):
         for t in itertools.product(reduced, repeat=2):
             yield "burst-after-prefix%d" % pi, (pre + t, (1,) * len(pre) + (2,), 1)
-    for t in itertools.product(reduced, repeat=3):
+    for t in itertools.product(reduced, repeat=ctx.scale(2, 3)):
         if canonical(t):
-            yield "burst-from-empty", (t, (3,), 2)
+            yield "burst-from-empty", (t, (len(t),), 2)
     rich = alphabet(real, (1, 2), (1, 2, 3), rich=True)
     for seq in sample_sequences(real, rng, rich, ctx.scale(400, 8000), 4, 12):
         groups, left = [], len(seq)
@@ -1592,7 +1595,7 @@ def run(ctx, only=None):
     ctx.exhaustive = True
 
     # many clients / players alive at once
-    crowd = list(crowd_cases(real, ctx.rng.fork("crowd"), ctx.scale(300, 6000)))
+    crowd = list(crowd_cases(real, ctx.rng.fork("crowd"), ctx.scale(300, 3000)))
     check_batch(ctx, real, [q for _l, q in crowd], [l for l, _q in crowd])
     # several messages handled while the listener is still suspended in state_updated()
     bursts = list(burst_cases(ctx, real, ctx.rng.fork("burst")))
@@ -1604,7 +1607,7 @@ def run(ctx, only=None):
 
     rich = alphabet(real, (0, 1, 2), (0, 1, 2, 3), rich=True, names=(None, 5))
     rng = ctx.rng.fork("sampled")
-    n = ctx.scale(3000, 30000)
+    n = ctx.scale(3000, 20000)
     check_batch(ctx, real, sample_sequences(real, rng, rich, n, 3, ctx.scale(10, 14)), "sampled")
 
 
